@@ -266,8 +266,8 @@ def classify_death(tail, returncode):
         m = re.search(r"runtime error: (.*)", text)
         if m:
             msg = m.group(1)
+            msg = re.sub(r"0x[0-9a-fA-F]+", "P", msg)
             msg = re.sub(r"-?\d[\d.e+]*", "N", msg)
-            msg = re.sub(r"0x[0-9a-f]+", "P", msg)
             msg = re.sub(r"'[^']*'", "T", msg)
             kind = "ubsan." + re.sub(r"[^A-Za-z]+", "-", msg).strip("-")[:60]
     if kind is None and "ERROR: LeakSanitizer" in text:
